@@ -3,7 +3,7 @@
    Gen/ConfigConv.v (From<SPDC> for SPDCConfig and the From impls it uses, Default impls).  Hand-pinned: Spec/ConfigSpec.v
    (documented spellings, what a type's name states, documented defaults), Spec/ConfigUnits.v (unit table).
    Model: Model/Config.v (try_as_spdc in the code's order with oracles), Model/Regex.v (regex engine). *)
-From Coq Require Import Reals String List Bool ZArith QArith.
+From Coq Require Import Reals Ascii String List Bool ZArith QArith.
 From SpdVerif Require Import Base.Rx Base.CfgNumOps Spec.ConfigSpec Gen.ConfigTables Spec.ConfigUnits Model.ConfigTypes Model.Config
   Model.NumInst Model.Regex Model.Names Gen.ConfigConv
   Proofs.C16_names Proofs.C16_round Proofs.C16_roundtrip Proofs.C16_stable Proofs.C16_defaults Proofs.Regex Proofs.C16_disjoint Gen.ConfigSites Gen.CfgSteps Proofs.CfgSteps_eq.
@@ -47,11 +47,11 @@ Proof. exact pm_parse_sound. Qed.
    entry for t matches it *)
 Theorem C16_pm_compiled_shape :
   compile_table pm_regex_table =
-  [ (Some {| c_ci := true; c_re := pm_re "0" "o" "o" "o" |}, Type0_o_oo);
-    (Some {| c_ci := true; c_re := pm_re "0" "e" "e" "e" |}, Type0_e_ee);
-    (Some {| c_ci := true; c_re := pm_re "1" "e" "o" "o" |}, Type1_e_oo);
-    (Some {| c_ci := true; c_re := pm_re "2" "e" "e" "o" |}, Type2_e_eo);
-    (Some {| c_ci := true; c_re := pm_re "2" "e" "o" "e" |}, Type2_e_oe) ].
+  [ (Some {| c_ci := true; c_re := pm_re "0"%char "o"%char "o"%char "o"%char |}, Type0_o_oo);
+    (Some {| c_ci := true; c_re := pm_re "0"%char "e"%char "e"%char "e"%char |}, Type0_e_ee);
+    (Some {| c_ci := true; c_re := pm_re "1"%char "e"%char "o"%char "o"%char |}, Type1_e_oo);
+    (Some {| c_ci := true; c_re := pm_re "2"%char "e"%char "e"%char "o"%char |}, Type2_e_eo);
+    (Some {| c_ci := true; c_re := pm_re "2"%char "e"%char "o"%char "e"%char |}, Type2_e_oe) ].
 Proof. exact pm_compiled_shape. Qed.
 
 Theorem C16_pm_regexes_disjoint : forall d1 a1 x1 y1 t1 d2 a2 x2 y2 t2 w,
